@@ -32,7 +32,7 @@ impl ItemSourceKind {
                 quote_spanned!(span=> (self.#member))
             }
             ItemSourceKind::Enum => {
-                let ident = field.make_ident("_self");
+                let ident = field.make_ident("__self");
                 quote_spanned!(span=> (*#ident))
             }
         }
@@ -42,10 +42,10 @@ impl ItemSourceKind {
         match self {
             ItemSourceKind::Struct => {
                 let member = field.member();
-                quote_spanned!(span=> (this.#member))
+                quote_spanned!(span=> (__this.#member))
             }
             ItemSourceKind::Enum => {
-                let ident = field.make_ident("_this");
+                let ident = field.make_ident("__this");
                 quote_spanned!(span=> (*#ident))
             }
         }
@@ -55,10 +55,10 @@ impl ItemSourceKind {
         match self {
             ItemSourceKind::Struct => {
                 let member = field.member();
-                quote_spanned!(span=> (other.#member))
+                quote_spanned!(span=> (__other.#member))
             }
             ItemSourceKind::Enum => {
-                let ident = field.make_ident("_other");
+                let ident = field.make_ident("__other");
                 quote_spanned!(span=> (*#ident))
             }
         }
@@ -151,7 +151,7 @@ fn build_compare_op(
                 const _: () = {
                     #[allow(clippy::double_parens)]
                     #[allow(unused_parens)]
-                    fn _f #impl_g (this: &#this_ty) #wheres {
+                    fn _f #impl_g (__this: &#this_ty) #wheres {
                         #body
                     }
                 };
@@ -216,12 +216,12 @@ fn build_partial_eq_body(
             for variant in variants {
                 let use_bounds = variant.hattrs.push_bounds_to(use_bounds, kind, wcb);
                 let body = build_from_fields(&variant.fields, use_bounds, wcb)?;
-                let pat_this = variant.make_pat("_self");
-                let pat_other = variant.make_pat("_other");
+                let pat_this = variant.make_pat("__self");
+                let pat_other = variant.make_pat("__other");
                 arms.push(quote!((#pat_this, #pat_other) => { #body }))
             }
             quote! {
-                match (self, other) {
+                match (self, __other) {
                     #(#arms)*
                     _ => false,
                 }
@@ -229,7 +229,7 @@ fn build_partial_eq_body(
         }
     };
     Ok(quote! {
-        fn eq(&self, other: &Self) -> bool {
+        fn eq(&self, __other: &Self) -> bool {
             #body
         }
     })
@@ -251,8 +251,8 @@ fn build_partial_eq_expr(
     let build_expr_by_eq = |by: &Expr| {
         quote! {
             {
-                fn #fn_ident<__T: ?::core::marker::Sized>(this: &__T, other: &__T, eq: impl ::core::ops::Fn(&__T, &__T) -> bool) -> bool {
-                    eq(this, other)
+                fn #fn_ident<__T: ?::core::marker::Sized>(__this: &__T, __other: &__T, __eq: impl ::core::ops::Fn(&__T, &__T) -> bool) -> bool {
+                    __eq(__this, __other)
                 }
                 #fn_ident(&#this, &#other, #by)
             }
@@ -278,8 +278,8 @@ fn build_partial_eq_expr(
     if let Some(by) = &cmp.partial_ord.by {
         return Ok(quote! {
             {
-                fn #fn_ident<__T: ?::core::marker::Sized>(this: &__T, other: &__T, partial_cmp: impl ::core::ops::Fn(&__T, &__T) -> ::core::option::Option<::core::cmp::Ordering>) -> bool {
-                    partial_cmp(this, other) == ::core::option::Option::Some(::core::cmp::Ordering::Equal)
+                fn #fn_ident<__T: ?::core::marker::Sized>(__this: &__T, __other: &__T, __partial_cmp: impl ::core::ops::Fn(&__T, &__T) -> ::core::option::Option<::core::cmp::Ordering>) -> bool {
+                    __partial_cmp(__this, __other) == ::core::option::Option::Some(::core::cmp::Ordering::Equal)
                 }
                 #fn_ident(&#this, &#other, #by)
             }
@@ -293,8 +293,8 @@ fn build_partial_eq_expr(
     if let Some(by) = &field.hattrs.cmp.ord.by {
         return Ok(quote! {
             {
-                fn #fn_ident<__T: ?::core::marker::Sized>(this: &__T, other: &__T, cmp: impl ::core::ops::Fn(&__T, &__T) -> ::core::cmp::Ordering) -> bool {
-                    cmp(this, other) == ::core::cmp::Ordering::Equal
+                fn #fn_ident<__T: ?::core::marker::Sized>(__this: &__T, __other: &__T, __cmp: impl ::core::ops::Fn(&__T, &__T) -> ::core::cmp::Ordering) -> bool {
+                    __cmp(__this, __other) == ::core::cmp::Ordering::Equal
                 }
                 #fn_ident(&#this, &#other, #by)
             }
@@ -366,11 +366,11 @@ fn build_eq_body(
             for variant in variants {
                 let use_bounds = variant.hattrs.push_bounds_to(use_bounds, kind, wcb);
                 let body = build_from_fields(&variant.fields, use_bounds, wcb)?;
-                let pat_this = variant.make_pat_with_self_path("_this", source.ident());
+                let pat_this = variant.make_pat_with_self_path("__this", source.ident());
                 arms.push(quote!(#pat_this => { #body }));
             }
             Ok(quote! {
-                match this {
+                match __this {
                     #(#arms)*
                     _ => { }
                 }
@@ -454,7 +454,7 @@ fn build_partial_ord_body(
             body.extend(quote! {
                 match #expr {
                     ::core::option::Option::Some(::core::cmp::Ordering::Equal) => {}
-                    o => return o,
+                    __o => return __o,
                 }
             });
             use_bounds = field
@@ -476,24 +476,24 @@ fn build_partial_ord_body(
             for variant in variants {
                 let use_bounds = variant.hattrs.push_bounds_to(use_bounds, kind, wcb);
                 let body = build_from_fields(&variant.fields, use_bounds, wcb)?;
-                let pat_this = variant.make_pat("_self");
-                let pat_other = variant.make_pat("_other");
+                let pat_this = variant.make_pat("__self");
+                let pat_other = variant.make_pat("__other");
                 arms.push(quote!((#pat_this, #pat_other) => { #body }));
             }
             let to_index_fn = build_to_index_fn(variants);
             quote! {
-                match (self, other) {
+                match (self, __other) {
                     #(#arms)*
-                    (this, other) => {
+                    (__this, __other) => {
                         #to_index_fn
-                        ::core::cmp::PartialOrd::partial_cmp(&to_index(this), &to_index(other))
+                        ::core::cmp::PartialOrd::partial_cmp(&__to_index(__this), &__to_index(__other))
                     },
                 }
             }
         }
     };
     Ok(quote! {
-        fn partial_cmp(&self, other: &Self) -> ::core::option::Option<::core::cmp::Ordering> {
+        fn partial_cmp(&self, __other: &Self) -> ::core::option::Option<::core::cmp::Ordering> {
             #body
         }
     })
@@ -516,11 +516,11 @@ fn build_partial_ord_expr(
         return Ok(quote! {
             {
                 fn #fn_ident<__T: ?::core::marker::Sized>(
-                    this: &__T,
-                    other: &__T,
-                    partial_cmp: impl ::core::ops::Fn(&__T, &__T) -> ::core::option::Option<::core::cmp::Ordering>)
+                    __this: &__T,
+                    __other: &__T,
+                    __partial_cmp: impl ::core::ops::Fn(&__T, &__T) -> ::core::option::Option<::core::cmp::Ordering>)
                  -> ::core::option::Option<::core::cmp::Ordering> {
-                    partial_cmp(this, other)
+                    __partial_cmp(__this, __other)
                 }
                 #fn_ident(&#this, &#other, #by)
             }
@@ -535,11 +535,11 @@ fn build_partial_ord_expr(
         return Ok(quote! {
             {
                 fn #fn_ident<__T: ?::core::marker::Sized>(
-                    this: &__T,
-                    other: &__T,
-                    cmp: impl ::core::ops::Fn(&__T, &__T) -> ::core::cmp::Ordering)
+                    __this: &__T,
+                    __other: &__T,
+                    __cmp: impl ::core::ops::Fn(&__T, &__T) -> ::core::cmp::Ordering)
                  -> ::core::option::Option<::core::cmp::Ordering> {
-                    ::core::option::Option::Some(cmp(this, other))
+                    ::core::option::Option::Some(__cmp(__this, __other))
                 }
                 #fn_ident(&#this, &#other, #by)
             }
@@ -592,7 +592,7 @@ fn build_ord_body(
             body.extend(quote! {
                 match #expr {
                     ::core::cmp::Ordering::Equal => {}
-                    o => return o,
+                    __o => return __o,
                 }
             });
             use_bounds = field
@@ -615,24 +615,24 @@ fn build_ord_body(
             for variant in variants {
                 let use_bounds = variant.hattrs.push_bounds_to(use_bounds, kind, wcb);
                 let body = build_from_fields(&variant.fields, use_bounds, wcb)?;
-                let pat_this = variant.make_pat("_self");
-                let pat_other = variant.make_pat("_other");
+                let pat_this = variant.make_pat("__self");
+                let pat_other = variant.make_pat("__other");
                 arms.push(quote!((#pat_this, #pat_other) => { #body }));
             }
             let to_index_fn = build_to_index_fn(variants);
             quote! {
-                match (self, other) {
+                match (self, __other) {
                     #(#arms)*
-                    (this, other) => {
+                    (__this, __other) => {
                         #to_index_fn
-                        ::core::cmp::Ord::cmp(&to_index(this), &to_index(other))
+                        ::core::cmp::Ord::cmp(&__to_index(__this), &__to_index(__other))
                     },
                 }
             }
         }
     };
     Ok(quote! {
-        fn cmp(&self, other: &Self) -> ::core::cmp::Ordering {
+        fn cmp(&self, __other: &Self) -> ::core::cmp::Ordering {
             #body
         }
     })
@@ -655,11 +655,11 @@ fn build_ord_expr(
         return Ok(quote! {
             {
                 fn #fn_ident<__T: ?::core::marker::Sized>(
-                    this: &__T,
-                    other: &__T,
-                    cmp: impl ::core::ops::Fn(&__T, &__T) -> ::core::cmp::Ordering)
+                    __this: &__T,
+                    __other: &__T,
+                    __cmp: impl ::core::ops::Fn(&__T, &__T) -> ::core::cmp::Ordering)
                  -> ::core::cmp::Ordering {
-                    cmp(this, other)
+                    __cmp(__this, __other)
                 }
                 #fn_ident(&#this, &#other, #by)
             }
@@ -719,7 +719,7 @@ fn build_hash_body(
             for variant in variants {
                 let use_bounds = variant.hattrs.push_bounds_to(use_bounds, kind, wcb);
                 let body = build_from_fields(&variant.fields, use_bounds, wcb)?;
-                let pat_self = variant.make_pat("_self");
+                let pat_self = variant.make_pat("__self");
                 arms.push(quote!(#pat_self => { #body }));
             }
             quote! {
@@ -731,7 +731,7 @@ fn build_hash_body(
         }
     };
     Ok(quote! {
-        fn hash<__H: ::core::hash::Hasher>(&self, state: &mut __H) {
+        fn hash<__H: ::core::hash::Hasher>(&self, __state: &mut __H) {
             #body
         }
     })
@@ -753,12 +753,12 @@ fn build_hash_expr(
         return Ok(quote! {
             {
                 fn #fn_ident<__T: ?::core::marker::Sized, __H: ::core::hash::Hasher>(
-                    this: &__T,
-                    state: &mut __H,
-                    hash: impl ::core::ops::Fn(&__T, &mut __H)) {
-                    hash(this, state)
+                    __this: &__T,
+                    __state: &mut __H,
+                    __hash: impl ::core::ops::Fn(&__T, &mut __H)) {
+                    __hash(__this, __state)
                 }
-                #fn_ident(&#this, state, #by)
+                #fn_ident(&#this, __state, #by)
             }
         });
     }
@@ -790,7 +790,7 @@ fn build_hash_expr(
     }
 
     *field_used = true;
-    Ok(quote_spanned!(field.span()=> ::core::hash::Hash::hash(&(#this), state);))
+    Ok(quote_spanned!(field.span()=> ::core::hash::Hash::hash(&(#this), __state);))
 }
 
 pub(super) struct HelperAttributesForCompareOp {
@@ -1108,7 +1108,7 @@ impl Template {
 
     fn build_hash_stmt(&self, this: TokenStream) -> TokenStream {
         let this = self.apply(this);
-        quote_spanned!(this.span()=> ::core::hash::Hash::hash(&(#this), state);)
+        quote_spanned!(this.span()=> ::core::hash::Hash::hash(&(#this), __state);)
     }
 }
 fn build_to_index_fn(variants: &[VariantEntry]) -> TokenStream {
@@ -1118,8 +1118,8 @@ fn build_to_index_fn(variants: &[VariantEntry]) -> TokenStream {
         arms.push(quote!((#pat) => #index,));
     }
     quote! {
-        let to_index = |this: &Self| -> usize {
-            match this {
+        let __to_index = |__this: &Self| -> usize {
+            match __this {
                 #(#arms)*
                 _ => ::core::unreachable!(),
             }
@@ -1129,7 +1129,7 @@ fn build_to_index_fn(variants: &[VariantEntry]) -> TokenStream {
 
 fn build_eq_checker(this: TokenStream) -> TokenStream {
     quote_spanned!(this.span()=>{
-        fn _eq<T: ::core::cmp::Eq + ?::core::marker::Sized>(_this: &T) { }
+        fn _eq<T: ::core::cmp::Eq + ?::core::marker::Sized>(__this: &T) { }
         _eq(&(#this))
     })
 }
